@@ -67,11 +67,12 @@ def _plan(draw, max_len, narrow=True):
     if draw(st.booleans()):
         pool = pool[:4]
     ngroups = 2
-    if h == "mode" and draw(st.booleans()):
+    if h == "mode" and draw(st.integers(0, 3)):
         # tie patterns such as [1, 2, 2, 1] need few distinct values in few, larger groups
         nn = [v for v in pool if v == v and v is not None and v != ""]
-        pool = nn[:2] + [v for v in pool if v not in nn][:1]
+        pool = nn[:2] + [v for v in pool if v not in nn][:draw(st.integers(0, 1))]
         ngroups = draw(st.integers(0, 1))
+        n = max(n, draw(st.integers(4, max(4, max_len))))
     vals = [draw(st.sampled_from(pool)) for _ in range(n)]
     groups = [draw(st.integers(0, ngroups)) for _ in range(n)]
     args = {}
